@@ -47,10 +47,12 @@ def build(profile):
 def exe(profile):
     return os.path.join(TARGET, profile, 'gvharness')
 
-def run(profile, progs):
-    """progs: list of (id, Prog). returns {id: (regs, libm)} and stats"""
+class Hang(Exception):
+    pass
+
+def _run_batch(profile, progs, timeout):
     inp = '\n'.join(p.line(cid) for cid, p in progs) + '\n'
-    p = subprocess.run([exe(profile)], input=inp, capture_output=True, text=True, timeout=1800)
+    p = subprocess.run([exe(profile)], input=inp, capture_output=True, text=True, timeout=timeout)
     if p.returncode != 0:
         raise BuildError('harness exited %d: %s' % (p.returncode, p.stderr[-2000:]))
     out = {}
@@ -74,4 +76,41 @@ def run(profile, progs):
                 stats[k] = int(v)
             except ValueError:
                 pass
+    return out, stats
+
+def run(profile, progs):
+    """progs: list of (id, Prog). returns {id: (regs, libm)} and stats.  A program on which the
+    implementation crashes the process (stack overflow, abort) or does not terminate within 10 s is
+    reported with the single pseudo-register ('X', reason)."""
+    try:
+        return _run_batch(profile, progs, 45 + len(progs) // 20)
+    except (subprocess.TimeoutExpired, BuildError):
+        pass
+    # isolate the offending programs: small chunks in parallel, then single programs, short timeouts
+    from concurrent.futures import ThreadPoolExecutor
+    out, stats = {}, {'libm_calls': 0, 'sincos_mismatch': 0}
+    def attempt(chunk):
+        try:
+            o, st = _run_batch(profile, chunk, 10 if len(chunk) == 1 else 20)
+            return chunk, o, st, None
+        except subprocess.TimeoutExpired:
+            return chunk, None, None, 'does not terminate (10 s)'
+        except BuildError as e:
+            return chunk, None, None, 'process died: ' + str(e)[:200]
+    progs = list(progs)
+    chunks = [progs[i:i + 16] for i in range(0, len(progs), 16)]
+    retry = []
+    with ThreadPoolExecutor(max_workers=16) as ex:
+        for chunk, o, st, why in ex.map(attempt, chunks):
+            if why is None:
+                out.update(o)
+                for k, v in st.items(): stats[k] = stats.get(k, 0) + v
+            else:
+                retry += [[p] for p in chunk]
+        for chunk, o, st, why in ex.map(attempt, retry):
+            if why is None:
+                out.update(o)
+                for k, v in st.items(): stats[k] = stats.get(k, 0) + v
+            else:
+                out[chunk[0][0]] = ([('X', why)], [])
     return out, stats
